@@ -61,8 +61,8 @@ AliasesC03 == IF Big
   THEN {"beacon", "document", "main_frame", "font", "image", "imageset", "media", "object",
         "object_subrequest", "ping", "script", "stylesheet", "sub_frame", "subdocument", "websocket",
         "xhr", "xmlhttprequest", "other", "speculative", "web_manifest", "xbl", "xml_dtd", "xslt", "foo", "csp_report"}
-  ELSE {"beacon", "document", "main_frame", "font", "image", "media", "object", "ping", "script",
-        "stylesheet", "sub_frame", "websocket", "xhr", "other", "foo", "csp_report"}
+  ELSE {"beacon", "document", "main_frame", "font", "image", "ping", "script",
+        "sub_frame", "websocket", "xhr", "other", "csp_report"}
 ReqsC03 == SetToSeqD(
   { MkReq(sc, "ab.com", "/ab?ab=1", al, src) :
       sc \in {"https", "http", "ws", "wss", "ftp"}, al \in AliasesC03,
